@@ -384,17 +384,18 @@ func c11SweepReinsert() (lost, conclusive int64) {
 		for c.Size() == n && time.Now().Before(deadline) {
 		}
 		putAt := make([]time.Time, hot)
+		stillThere := make([]bool, hot)
 		for j := 0; j < hot; j++ {
 			key := fmt.Sprintf("k%06d", n-1-j)
-			c.Get(key)
+			_, stillThere[j] = c.Get(key) // a hit would mean the old entry lives on and keeps its age through the update below
 			c.Put(key, "fresh")
 			putAt[j] = time.Now()
 		}
 		wg.Wait()
 		for j := 0; j < hot; j++ {
 			v, ok := c.Get(fmt.Sprintf("k%06d", n-1-j))
-			if time.Since(putAt[j]) > ttl/2 {
-				continue // the machine stalled: the entry may be near its expiry
+			if stillThere[j] || time.Since(putAt[j]) > ttl/2 {
+				continue // not conclusive: the entry was not re-created, or the machine stalled and it may be near its expiry
 			}
 			conclusive++
 			if !ok || v != "fresh" {
